@@ -397,6 +397,7 @@ pub struct Agg {
     pub fps: HashSet<u64>,
     pub digests: HashMap<u64, u64>,
     pub violations: BTreeMap<u64, Violation>,
+    pub stopped_early: bool,
 }
 
 struct Shard {
@@ -545,6 +546,7 @@ pub fn run_sharded(scratch: &Path, scenario: &str, seed: u64, tier: Tier, indice
     }
     // poll all shards; a dead worker is attributed and its shard resumed at once
     let mut live = shards.iter().filter(|s| s.child.is_some()).count();
+    let mut first_violation: Option<Instant> = None;
     while live > 0 {
         let mut progressed = false;
         for k in 0..shards.len() {
@@ -605,6 +607,22 @@ pub fn run_sharded(scratch: &Path, scenario: &str, seed: u64, tier: Tier, indice
             let list = scratch.join(format!("{}.w{}.g{}.list", tag, k, sh.gen));
             sh.child = Some(spawn_worker(scenario, seed, tier, &rest, &sh.out, &sh.err, &sh.crumb, &known_file, &list));
             let _ = sh.pos;
+        }
+        // a verdict exists: do not burn the rest of the budget (each hang costs a 20 s watchdog period)
+        if !agg.violations.is_empty() {
+            let t = *first_violation.get_or_insert_with(Instant::now);
+            let costly = agg.violations.values().any(|v| v.class == "timeout" || v.class == "abort");
+            if costly || t.elapsed().as_secs_f64() > 5.0 {
+                for sh in shards.iter_mut() {
+                    if let Some(mut c) = sh.child.take() {
+                        let _ = c.kill();
+                        let _ = c.wait();
+                        parse_worker_out(&sh.out, &mut agg, &mut done);
+                    }
+                }
+                agg.stopped_early = true;
+                break;
+            }
         }
         if !progressed {
             std::thread::sleep(std::time::Duration::from_millis(3));
@@ -958,6 +976,7 @@ pub fn orchestrate(a: OrchArgs) -> i32 {
                 "process_deaths_attributed": agg.deaths,
                 "known_findings_listed": known_reported,
                 "known_findings_seen": agg.known_seen,
+                "stopped_early_after_violation": agg.stopped_early,
                 "violations_reported": reported.iter().map(|(s, r)| json!({"signature": s, "replay": r})).collect::<Vec<_>>(),
                 "workers": a.workers,
             }
